@@ -60,15 +60,16 @@ type opResult struct {
 }
 
 type prov struct {
-	kind int // generator provenance
-	list bool
-	seed uint64
-	muts []uint64
-	gen  bool
-	dec  uint8 // decoder provenance: opUnmTyped / opUnmAll / opUnmCompound
-	typ  int
-	src  []byte
-	idx  int
+	kind   int // generator provenance
+	list   bool
+	seed   uint64
+	muts   []uint64
+	tweaks []bool // parallel to muts: true = single-leaf tweak, false = whole-value overwrite
+	gen    bool
+	dec    uint8 // decoder provenance: opUnmTyped / opUnmAll / opUnmCompound
+	typ    int
+	src    []byte
+	idx    int
 }
 
 type slotVal struct {
@@ -130,6 +131,11 @@ func newWorld(s *RunSpec, conc bool) *world {
 			sv.l = genList(o.Seed)
 		} else {
 			sv.pkt = genPacket(o.Kind, o.Seed)
+			for _, tw := range o.Tweaks {
+				tweakPacket(sv.pkt, tw)
+				sv.pv.muts = append(sv.pv.muts, tw)
+				sv.pv.tweaks = append(sv.pv.tweaks, true)
+			}
 		}
 		w.slots[o.Slot] = sv
 	}
@@ -586,9 +592,17 @@ func (w *world) execOp(t int, op *Op, in *slotVal) (res opResult, out slotVal) {
 			res.skipped = true
 			return
 		}
+		if op.N == 1 {
+			// tweak: change exactly one leaf of the value in place (near-twin of what it was)
+			tweakPacket(in.pkt, op.Seed)
+			in.pv.muts = append(in.pv.muts, op.Seed)
+			in.pv.tweaks = append(in.pv.tweaks, true)
+			return
+		}
 		fresh := genPacket(in.pv.kind, op.Seed)
 		mutateInto(in.pkt, fresh)
 		in.pv.muts = append(in.pv.muts, op.Seed)
+		in.pv.tweaks = append(in.pv.tweaks, false)
 		return
 	case opCorrupt:
 		var c []byte
@@ -704,6 +718,83 @@ func copyExported(dv, sv reflect.Value, keepXRHeader bool) {
 	}
 }
 
+// tweakPacket changes exactly one exported leaf of the packet in place (one integer, one flag, one
+// character of a text, one octet of a byte slice, one element of a list), chosen by the seed: the
+// caller-side edit that turns a value into a near twin of itself.  XRHeader fields are left alone
+// (derived state), and lengths never change, so size-related fingerprints stay the same.
+func tweakPacket(p rtcp.Packet, seed uint64) {
+	var leaves []reflect.Value
+	var walk func(v reflect.Value, depth int)
+	walk = func(v reflect.Value, depth int) {
+		if depth > 20 || !v.IsValid() {
+			return
+		}
+		switch v.Kind() {
+		case reflect.Ptr, reflect.Interface:
+			if !v.IsNil() {
+				walk(v.Elem(), depth+1)
+			}
+		case reflect.Struct:
+			if v.Type() == xrHeaderType {
+				return
+			}
+			t := v.Type()
+			for i := 0; i < t.NumField(); i++ {
+				if t.Field(i).PkgPath == "" {
+					walk(v.Field(i), depth+1)
+				}
+			}
+		case reflect.Slice, reflect.Array:
+			if v.Kind() == reflect.Slice && !v.IsNil() && v.CanSet() {
+				// copy-on-write: results returned earlier may legitimately alias the old backing array
+				// (RawPacket.Marshal, REMB.DestinationSSRC); the caller installs an equal, fresh slice first
+				nv := reflect.MakeSlice(v.Type(), v.Len(), v.Len())
+				reflect.Copy(nv, v)
+				v.Set(nv)
+			}
+			n := v.Len()
+			if n > 64 {
+				n = 64
+			}
+			for i := 0; i < n; i++ {
+				walk(v.Index(i), depth+1)
+			}
+		case reflect.Bool, reflect.Int, reflect.Int8, reflect.Int16, reflect.Int32, reflect.Int64,
+			reflect.Uint, reflect.Uint8, reflect.Uint16, reflect.Uint32, reflect.Uint64, reflect.Float32, reflect.String:
+			if v.CanSet() {
+				leaves = append(leaves, v)
+			}
+		}
+	}
+	walk(reflect.ValueOf(p), 0)
+	if len(leaves) == 0 {
+		return
+	}
+	r := &rng{s: seed}
+	v := leaves[r.intn(len(leaves))]
+	switch v.Kind() {
+	case reflect.Bool:
+		v.SetBool(!v.Bool())
+	case reflect.Int, reflect.Int8, reflect.Int16, reflect.Int32, reflect.Int64:
+		v.SetInt(v.Int() ^ 1)
+	case reflect.Uint, reflect.Uint8, reflect.Uint16, reflect.Uint32, reflect.Uint64:
+		v.SetUint(v.Uint() ^ (1 << uint(r.intn(3))))
+	case reflect.Float32:
+		v.SetFloat(v.Float() + 1000)
+	case reflect.String:
+		s := []byte(v.String())
+		if len(s) > 0 {
+			i := r.intn(len(s))
+			if s[i] == 'z' {
+				s[i] = 'y'
+			} else {
+				s[i] = 'z'
+			}
+			v.SetString(string(s))
+		}
+	}
+}
+
 // corruptCopy returns a damaged copy of b (truncate / bit flips / splice).
 func corruptCopy(b []byte, seed uint64) []byte {
 	r := &rng{s: seed}
@@ -800,9 +891,14 @@ func cloneIso(in *slotVal) slotVal {
 			return out
 		}
 		out.pkt = genPacket(pv.kind, pv.seed)
-		for _, m := range pv.muts {
-			mutateInto(out.pkt, genPacket(pv.kind, m))
+		for i, m := range pv.muts {
+			if i < len(pv.tweaks) && pv.tweaks[i] {
+				tweakPacket(out.pkt, m)
+			} else {
+				mutateInto(out.pkt, genPacket(pv.kind, m))
+			}
 			out.pv.muts = append(out.pv.muts, m)
+			out.pv.tweaks = append(out.pv.tweaks, i < len(pv.tweaks) && pv.tweaks[i])
 		}
 		return out
 	}
